@@ -118,4 +118,28 @@ theorem execLMove_err {s : State} {src dst : Nat} {f t : Side}
       · simp_all [Reply.isError]
       · split <;> simp_all [Reply.isError]
 
+/-! ### SORT -/
+
+theorem inv_execSort {s : State} (h : Inv s) (k : Nat) (st : Option Nat) : Inv (execSort s k st).1 := by
+  unfold execSort
+  split
+  · exact h
+  · split
+    · exact h
+    · split
+      · exact h
+      · exact inv_putList h ..
+
+theorem execSort_err {s : State} {k : Nat} {st : Option Nat}
+    (he : (execSort s k st).2.isError = true) : (execSort s k st).1 = s := by
+  unfold execSort at *
+  cases hs : sortSource s k with
+  | none => rfl
+  | some es =>
+    simp only [hs] at he ⊢
+    by_cases hb : es.any (fun e => (sortNum e).isNone) = true
+    · simp only [hb, if_true]
+    · simp only [hb] at he ⊢
+      cases st <;> simp [Reply.isError] at he
+
 end RedisVerif.Redis
